@@ -50,3 +50,13 @@ Proof. exact k2_refuted. Qed.
 Example C06_expansion_example : option_map untok (build 4 ok_env [] "g") =
   Some "(SUM(a_cte.rev_raw)) + (SUM(b_cte.cost_raw)) / ((SUM(a_cte.rev_raw)) / NULLIF(SUM(b_cte.cost_raw), 0))".
 Proof. exact ok_expansion. Qed.
+
+Require V.Model.SmallFns V.Gen.Small_gen V.Proofs.Small_proofs.
+
+(* fill_nulls_with, regenerated: Gen/Small_gen.v holds what SQLGenerator._wrap_with_fill_nulls returns for scripted expressions and fill values (None, numbers,
+   booleans, strings incl. quotes), extracted from generator.py on every run.  The model -- COALESCE(<expr>, <printed number>) or COALESCE(<expr>, '<text with
+   its quotes doubled>') -- returns the same text on every row, and for ANY text value the number of quotes inside the literal is even (the value cannot end it). *)
+Theorem C06_fill_table : forallb V.Model.SmallFns.fill_row_ok V.Gen.Small_gen.fill_rows = true.
+Proof. exact V.Proofs.Small_proofs.fill_table_ok. Qed.
+Theorem C06_fill_quotes_doubled : forall s, V.Proofs.Small_proofs.count_quotes (V.Model.SmallFns.double_quotes s) = 2 * V.Proofs.Small_proofs.count_quotes s.
+Proof. exact V.Proofs.Small_proofs.double_quotes_even. Qed.
